@@ -48,7 +48,7 @@ def st_copy(draw):
             # 'occupied': the target path holds another array with metadata and is replaced (overwrite=True);
             # 'aliased': values handed out by src.metadata are changed in place by the caller before the copy is made;
             # 'emptied': the source had metadata once, all keys were popped
-            'pre': draw(st.sampled_from([None, None, 'occupied', 'aliased', 'emptied', 'occupied+emptied', 'during-iterappend']))}
+            'pre': draw(st.sampled_from([None, None, 'occupied', 'aliased', 'emptied', 'occupied+emptied', 'during-iterappend', 'refused-first']))}
     if kind == 'Array':
         spec['shape'] = draw(gens.st_shape(max_rank=3))
         spec['chunk'] = draw(st.sampled_from([None, 1, 2, 3, 100]))
@@ -207,6 +207,23 @@ def _exec_copy(ctx, spec):
             else:
                 darr.asraggedarray(cp, [[1, 2], [3]], dtype='int8', metadata=occ)
             kw['overwrite'] = True
+        if pre == 'refused-first':
+            # a copy to the same path that has to be refused (a target type Darr cannot hold) comes
+            # first: it must leave nothing behind that gets into the way of the valid copy that follows
+            out.cls('refused-copy-to-the-same-path-first')
+            before_ = snapshot(d)
+            for bad_kw in (dict(dtype='bool'), dict(dtype='U4'), dict(dtype='datetime64[s]'), dict(dtype=object)):
+                try:
+                    src.copy(cp, **bad_kw)
+                except Exception:
+                    pass
+                else:
+                    out.viol('invalid-copy-accepted', tag, f'copy({bad_kw}) returned normally')
+                    return out
+                after_ = snapshot(d)
+                if after_ != before_:
+                    out.viol('refused-copy-left-something-behind', tag, f'copy({bad_kw}): ' + '; '.join(diff(before_, after_))[:600])
+                    return out
         if 'emptied' in pre and md:
             for k_ in list(md):
                 src.metadata.pop(k_)
@@ -436,7 +453,7 @@ def grid():
 
 
 def pre_grid():
-    for kind, meta, pre, dtarg in itertools.product(['Array', 'Ragged'], [None, 'nested'], ['occupied', 'aliased', 'emptied', 'occupied+emptied', 'during-iterappend'],
+    for kind, meta, pre, dtarg in itertools.product(['Array', 'Ragged'], [None, 'nested'], ['occupied', 'aliased', 'emptied', 'occupied+emptied', 'during-iterappend', 'refused-first'],
                                                     [None, {'t': 'float64', 'bo': '>'}]):
         for seed in (1, 2):
             spec = {'f': 'copy', 'kind': kind, 'dt': {'t': 'int16', 'bo': '<'}, 'seed': seed, 'dtarg': dtarg, 'meta': meta, 'mode': 'r+',
